@@ -143,12 +143,13 @@ type ThreadSpec struct {
 }
 
 type Scenario struct {
-	Name    string       `json:"name"`
-	Cfg     Config       `json:"config"`
-	Setup   []Op         `json:"setup"`
-	Threads []ThreadSpec `json:"threads"`
-	Writer  int          `json:"writer"` // index of the (single) mutating thread, -1 if none
-	Closer  bool         `json:"closer"` // some thread calls Close: ErrClosed answers are legal once Close was invoked
+	Name           string       `json:"name"`
+	Cfg            Config       `json:"config"`
+	Setup          []Op         `json:"setup"`
+	Threads        []ThreadSpec `json:"threads"`
+	Writer         int          `json:"writer"`                     // index of the (single) mutating thread, -1 if none
+	MetaCloseFails bool         `json:"meta_close_fails,omitempty"` // the metadata store's Close returns an error
+	Closer         bool         `json:"closer"`                     // some thread calls Close: ErrClosed answers are legal once Close was invoked
 }
 
 type Event struct {
@@ -185,6 +186,7 @@ func RunScenario(sc *Scenario, ch vsched.Chooser, trace bool) (*vsched.Result, *
 	rec := &ExecRecord{}
 	sys := Mount(simdisk.NewState(), sc.Cfg)
 	defer sys.Unmount()
+	sys.MetaCloseErr = sc.MetaCloseFails
 	rec.Disk = sys.Disk
 	simdisk.Clock = vsched.Tick
 	defer func() { simdisk.Clock = nil }()
@@ -399,7 +401,7 @@ func CheckExecution(sc *Scenario, res *vsched.Result, rec *ExecRecord) []Violati
 	var closeInv int64 = -1
 	var closeRet int64 = -1
 	for _, e := range rec.Events {
-		if e.Op.K == "C" && e.Err == "" && closeInv < 0 {
+		if e.Op.K == "C" && closeInv < 0 {
 			closeInv, closeRet = e.Inv, e.Ret
 		}
 	}
